@@ -25,7 +25,7 @@ def class_attr_names(ci):
     return names
 
 
-ENCRYPT_OPS = {  # class -> (roles of the positional parameters, ESK packet class, index of key / cipher in encrypt_sk's arguments, plaintext)
+ENCRYPT_OPS = {  # class -> (roles of the positional parameters, ESK packet class, -, position of the cipher in encrypt_sk (None: s2k), plaintext)
     'PGPMessage': (('self', 'passphrase', 'sessionkey'), 'SKESessionKey', 1, None, 'self'),
     'PGPKey': (('self', 'message', 'sessionkey'), 'PKESessionKey', 2, 1, 'message'),
 }
@@ -49,14 +49,20 @@ def encrypt_operation_paths(prog, cls, given):
         data = [c for c in s.calls if c[0].endswith('.encrypt') and taint.obj_of_class(s, c[0][:-len('.encrypt')], 'IntegrityProtectedSKEData', 'SKEData')]
         d = {'state': s, 'esk': esk, 'data': data, 'subject': subject}
         if len(esk) == 1 and len(data) == 1:
-            ea, da = esk[0][1], data[0][1]
             d['esk_obj'] = esk[0][0][:-len('.encrypt_sk')]
-            d['esk_key'] = ea[ki] if len(ea) > ki and not esk[0][2] else None
+            ocls = taint.objects(s)[d['esk_obj']].cls
+            ea = taint.bind_call(esk[0], ocls.find_method('encrypt_sk').params[1:])
+            dcls = taint.objects(s)[data[0][0][:-len('.encrypt')]].cls
+            da = taint.bind_call(data[0], dcls.find_method('encrypt').params[1:])
+            eroles = ('passphrase', 'sk') if ai is None else ('pk', 'symalg', 'symkey')
+            ea = dict(zip(eroles, [ea.get(p) for p in ocls.find_method('encrypt_sk').params[1:]]))
+            da = dict(zip(('key', 'alg', 'data'), [da.get(p) for p in dcls.find_method('encrypt').params[1:]]))
+            d['esk_key'] = ea.get('sk' if ai is None else 'symkey')
             if ai is not None:
-                d['esk_alg'] = [ea[ai]] if len(ea) > ai else []
+                d['esk_alg'] = [ea.get('symalg')]
             else:
                 d['esk_alg'] = [v for p, v, l, _ in s.stores if p == d['esk_obj'] + '.s2k.encalg']
-            d['data_key'], d['data_alg'], d['plaintext'] = (list(da) + [None, None, None])[:3] if not data[0][2] else (None, None, None)
+            d['data_key'], d['data_alg'], d['plaintext'] = da.get('key'), da.get('alg'), da.get('data')
         res.append(d)
     return fi, res
 
